@@ -1,13 +1,19 @@
 // unit `tok`: the tokenizers of src/text/abstraction.rs (property C06): `impl DiffableStr for str` (tokens.rs) and
 // `impl DiffableStr for [u8]` in `mod bytes_support` (tokens_bytes.rs): tokenize_lines, tokenize_lines_and_newlines,
-// tokenize_words.  Not covered: tokenize_chars, tokenize_unicode_words, tokenize_graphemes.
+// tokenize_words are verified against their impl-level contracts AND against the trait-level contract of diffablestr.rs
+// (what the generic text entry points of unit txt rely on); `len` (both) and `slice` of [u8] are verified against the
+// trait-level contract too.  ASSUMED (real bodies kept, external_body): tokenize_chars (both; iterator map + collect) and
+// `slice` of str (H-DS: char boundaries).  Not covered: tokenize_unicode_words, tokenize_graphemes.
 // (tools/vx.py names the functions of `impl DiffableStr for [u8]` `DiffableStr::tokenize_*`, like the trait's
 // declarations: its impl-header pattern does not read `[u8]`.)
+//@@ include tokpart.rs
+//@@ include diffablestr.rs
 //@@ include tokens.rs
 //@@ include tokens_bytes.rs
-//@@ include tokpart.rs
 //@@ include tokbridge.rs
-//@@ props ^DiffableStr for str::tokenize_ : C06
-//@@ props ^DiffableStr::tokenize_ : C06
+//@@ props ^DiffableStr for str::tokenize_ : C06 C04
+//@@ props ^DiffableStr::tokenize_ : C06 C04
+//@@ props ^DiffableStr for str::(len|slice)$|^DiffableStr::(len|slice)$ : C17 C04
+//@@ props ^DiffableStrRef for T::as_diffable_str$ : C04
 //@@ props ^lemma_tok_|^lemma_tokb_|^lemma_tokpart_ : C06 C04 C17
 fn main() {}
